@@ -65,6 +65,9 @@ class Run:
         self.quick = tier == "quick"
         self.t0 = time.time()
         self.wd = workdir(prop)
+        from common import REPLAYS
+        for f in REPLAYS.glob(f"{prop}_*.json"):      # replays of earlier runs of this check
+            f.unlink()
         self.out = Outcome(prop)
         self.traces: list[dict] = []
         self.jobs: list = []
